@@ -73,6 +73,8 @@ def plan_C01(run):
         mc.lattice(run, "cast4-n4", ALL_KINDS, SETTINGS_ALL, 4, 4)
         mc.lattice(run, "cast5-n3", ALL_KINDS, ["default", "gamma_big", "limit_call"], 5, 3)
     n = q(run, 1500, 60000)
+    # corners of the numeric domain (+-20 beta, sigma 1e-4..10 beta, 16-player teams, beta over six orders of magnitude)
+    campaign(run, "extremes", {"C01"}, lambda s, r: drivers.extremes_campaign(s, r, q(run, 500, 20000), ops=("rate",)))
     campaign(run, "rate-campaign", {"C01"}, lambda s, r: drivers.rate_campaign(s, r, n))
     run.require_classes(RATE_CLASSES + ["gamma=probe", "gamma=big", "gamma=one", "gamma=zero"], "rate-campaign")
     return {"rule": "random rate() calls over the full numeric domain (2-8 teams x 1-8 players, five models, "
@@ -102,7 +104,8 @@ def plan_C03(run):
     # design level: the library's outcome pipeline equals the rule for every tagged vector up to length 3 (quick) or 5 (thorough)
     mc.outcome(run, q(run, 3, 5))
     # every rank / score vector over mixed values, enumerated by TLC and replayed (C01's comparison then ties each to the rule)
-    mc.lattice(run, "encodings", ALL_KINDS, ["default"], 3, q(run, 2, 3), style="encodings", want={"C03"}, group_orders="C03")
+    mc.lattice(run, "encodings", ALL_KINDS, ["default"], 3, q(run, 2, 3), style="encodings", want={"C03"}, group_orders="C03",
+               invariants=mc.INV_ALL + ["Inv_C03"])
     campaign(run, "order-groups", {"C03"}, lambda s, r: drivers.order_groups(s, r, n))
     run.require_classes(["group:C03:order", "kind=PL", "kind=BTF", "kind=BTP", "kind=TMF", "kind=TMP", "ties", "enc=scores", "enc=ranks"], "order-groups")
     return {"rule": "one game rated under 8 differently written but order-equivalent outcome arguments (ints, floats, mixed, "
@@ -111,6 +114,9 @@ def plan_C03(run):
 
 
 def plan_C04(run):
+    # design level: the rule itself is equivariant (reversed presentation recomputed at 1e-28 on every lattice transition)
+    mc.lattice(run, "equivariance", ALL_KINDS, q(run, ["default"], ["default", "limit_call", "gamma_probe"]), 4, q(run, 3, 4),
+               invariants=["Inv_C04"], replay=False)
     n = q(run, 120, 2500)
     upto = q(run, 4, 5)
     campaign(run, "perm-groups", {"C04"}, lambda s, r: drivers.perm_groups(s, r, n, "C04", ops=("rate",), exhaustive_upto=upto, max_teams=q(run, 6, 8)))
@@ -135,6 +141,7 @@ def plan_C05(run):
 def plan_C06(run):
     mc.lattice(run, "cast4", ALL_KINDS, q(run, ["tau0_call", "limit_call", "tau_big", "gamma_zero"], SETTINGS_ALL), 4, q(run, 2, 3))
     n = q(run, 1500, 30000)
+    campaign(run, "extremes", {"C06"}, lambda s, r: drivers.extremes_campaign(s, r, q(run, 500, 10000), ops=("rate",)))
     campaign(run, "rate-campaign", {"C06"}, lambda s, r: drivers.rate_campaign(s, r, n))
     run.require_classes(RATE_CLASSES, "rate-campaign")
     # league histories: every step validated from the observed pre-state, which must be the previous post-state
@@ -146,6 +153,7 @@ def plan_C06(run):
 def plan_C07(run):
     mc.lattice(run, "cast4", ALL_KINDS, q(run, ["default"], ["default", "tau_big", "kappa_big", "gamma_probe"]), 4, q(run, 3, 4))
     n = q(run, 1500, 40000)
+    campaign(run, "extremes", {"C07"}, lambda s, r: drivers.extremes_campaign(s, r, q(run, 500, 10000), ops=("rate",)))
     campaign(run, "rate-campaign", {"C07"}, lambda s, r: drivers.rate_campaign(s, r, n))
     run.require_classes(RATE_CLASSES, "rate-campaign")
     return {"rule": "random rate() calls; precision-weighted zero sum of observed mu changes"}
@@ -323,6 +331,9 @@ def plan_C15(run):
 
 
 def plan_C16(run):
+    # design level: the rule is covariant under x3 scaling (PL, BT) and +7.5 shifts (equal sizes), at 1e-28
+    mc.lattice(run, "scale-shift", ALL_KINDS, q(run, ["default"], ["default", "limit_call", "tau_big", "gamma_one"]), 4, q(run, 3, 4),
+               invariants=["Inv_C16"], replay=False)
     n = q(run, 100, 2000)
     campaign(run, "scale-groups", {"C16"}, lambda s, r: drivers.scale_groups(s, r, n))
     run.require_classes(["group:C16:scaled", "group:C16:shifted"], "scale-groups")
@@ -352,6 +363,8 @@ def plan_C18(run):
 
 
 def plan_C19(run):
+    # design level: Bradley-Terry partial = full on every two-team game of the lattice
+    mc.lattice(run, "bt-part-full", ["BTP"], q(run, ["default", "limit_call"], SETTINGS_ALL), 4, 2, invariants=["Inv_C19"], replay=False)
     n = q(run, 80, 1500)
     campaign(run, "model-groups", {"C19"}, lambda s, r: drivers.model_groups(s, r, n))
     campaign(run, "api", {"C19"}, lambda s, r: drivers.api_groups(s))
